@@ -20,6 +20,11 @@ CLAIMED = {
   text='Decides structural clauses: every fold arm applies the host operator of its token to the carrier member its signedness class demands and all operator/class combinations have arms; folds always pass the wrap step; no fold can execute a trapping host division (exact over the classes that determine trapping); the cast and logical folds give the C-mandated result on a boundary-value partition (finite, stated as non-exhaustive); consumers test constness before reading the value. Numeric equality for all operand values is NOT decided (host arithmetic trusted).',
   note='Trusts clang 14 front end, lib/eai.py (its C integer/float semantics, union-member reinterpretation), oracle tables in props/c04.py.',
   design='5/C04'),
+ 'C09': dict(
+  technique='abstract interpretation of decl.c (decl/declcommon/getlinkage/defineobj/emittentativedefns, mkglobal, emitdata) with a scripted token cursor to extract the per-identifier declaration step function; explicit-state model checking of all declaration histories against a C11 6.2.2/6.9.2/6.7.4p7 reference implementation',
+  text='Decides, for one identifier: every history of up to 2 (quick) / 3 (thorough) declarations over {object,function} x {file,block scope} x all storage-class/inline/initialiser combinations, plus all file-scope histories up to 3 / 4, yields the diagnostics, emitted definitions (symbol class, export, thread marker), scope bindings and end-of-unit tentative flush that C11 prescribes; plus the mkglobal naming table (asm labels verbatim, unique local names) and the export/thread keywords. Interactions between different identifiers and the emitted bytes of the definitions are NOT decided. Histories where C11 is silent (_Thread_local without initialiser) are left unjudged and counted.',
+  note='Trusts clang 14 front end, lib/eai.py, the neighbour models in props/c09.py (declspecs/declarator/consume/scope map/emitters as events) and the reference semantics ref_step (DESIGN A.6). One known finding (inline definition + later external declaration, upstream XXX) is listed in known_findings.json.',
+  design='5/C09'),
  'C01': dict(
   technique='abstract interpretation (partial evaluation of the lowering functions over the static type/operator descriptor domain) + AST table extraction vs C11/QBE oracle tables',
   text='Decides structural clauses only: the instruction-selection, conversion, load/store, truthiness and bit-field shift tables that every compiled program is lowered through are extracted from the current source by an abstract interpreter and compared exhaustively (over the finite descriptor domain) with oracle tables written from C11 and the QBE manual; sibling switches are checked for exhaustiveness. Semantic equivalence of emitted IL for arbitrary programs is NOT decided.',
